@@ -1083,6 +1083,10 @@ class StrategyBase(Node):
                 positions[x.name] += x.positions
             else:
                 positions[x.name] = x.positions
+        if positions.empty:
+            # no security was ever traded - nothing to report
+            idx = pd.MultiIndex.from_arrays([[], []], names=["Date", "Security"])
+            return pd.DataFrame({"price": [], "quantity": []}, index=idx)
         # trades are diff
         trades = positions.diff()
         # must adjust first row
